@@ -5,9 +5,9 @@ namespace MagpyVerif.Gen.StyleTemp
 def origReadFirst : Bool := true
 
 /-- the single `yield` sits inside a `try` (no `except`) whose `finally` assigns that local back to `obj._style` -/
-def restoreInFinally : Bool := false
+def restoreInFinally : Bool := true
 
 /-- assignments to `obj._style` outside the try (after the read of the original) -/
-def assignsOutsideTry : Nat := 2
+def assignsOutsideTry : Nat := 0
 
 end MagpyVerif.Gen.StyleTemp
